@@ -309,7 +309,14 @@ def build_source(src):
     data = to_live(kind, src["data"])
     if part["how"] == "sizes":
         pieces = layout_parts(src["data"], part)
-        return db.from_delayed([delayed(_piece, pure=False)(json.dumps(p), kind) for p in pieces])
+        # deterministic key names (pure=False would draw uuid4 names, and graph optimisation - hence which defect a case
+        # hits - can depend on the names): a case must be a pure function of its spec
+        import hashlib
+
+        tag = hashlib.sha1(json.dumps([kind, src["data"], part], sort_keys=True, default=str).encode()).hexdigest()[:12]
+        return db.from_delayed(
+            [delayed(_piece, pure=True)(json.dumps(p), kind, dask_key_name=f"piece-{tag}-{i}") for i, p in enumerate(pieces)]
+        )
     if part["how"] == "partition_size":
         return db.from_sequence(data, partition_size=part["n"])
     return db.from_sequence(data, npartitions=part["n"])
@@ -720,7 +727,10 @@ def dask_step(bag, op):
         elif how == "bag":
             other = db.from_sequence(other, npartitions=1)
         elif how == "delayed":
-            other = delayed(_piece, pure=False)(json.dumps(op["other_data"]), op["other_kind"])
+            import hashlib
+
+            tag = hashlib.sha1(json.dumps([op["other_kind"], op["other_data"]], sort_keys=True, default=str).encode()).hexdigest()[:12]
+            other = delayed(_piece, pure=True)(json.dumps(op["other_data"]), op["other_kind"], dask_key_name=f"joinpiece-{tag}")
         on_other = FN[op["on_other"]] if op.get("on_other") else None
         return bag.join(other, FN[op["on_self"]], on_other)
     if name == "product":
